@@ -194,6 +194,7 @@ def judge(ctx, case):
 
 
 def canaries(ctx):
+    ctx.repo_tests_under_monitors(('C03',))       # second, independent workload for the same oracle
     recs = [b'abc', b'\x00' * 4, b'z' * 1100]
     s = ref.vbs(recs)
     ctx.canary('little-endian prefix rejected', s != b'\x03\x00\x00\x00abc' + s[7:])
